@@ -32,6 +32,7 @@ import (
 	networking "k8s.io/api/networking/v1"
 	"sigs.k8s.io/controller-runtime/pkg/client"
 	gatewayv1 "sigs.k8s.io/gateway-api/apis/v1"
+	gatewayv1alpha2 "sigs.k8s.io/gateway-api/apis/v1alpha2"
 
 	"verif/harness/lib/c06"
 	"verif/harness/lib/hx"
@@ -378,6 +379,26 @@ func classify(c ocase, diff []string) string {
 			}
 		}
 	}
+	// gateway api: routes of one kind created in the same second in different namespaces
+	if strings.Contains(text, "__rule") || strings.Contains(text, "_tcprule") {
+		type rid struct{ kind, ns, name, stamp string }
+		var routes []rid
+		for _, o := range all {
+			switch o.(type) {
+			case *gatewayv1.HTTPRoute:
+				routes = append(routes, rid{"http", o.GetNamespace(), o.GetName(), o.GetCreationTimestamp().String()})
+			case *gatewayv1alpha2.TCPRoute:
+				routes = append(routes, rid{"tcp", o.GetNamespace(), o.GetName(), o.GetCreationTimestamp().String()})
+			}
+		}
+		for i, x := range routes {
+			for _, y := range routes[i+1:] {
+				if x.kind == y.kind && x.stamp == y.stamp && x.ns != y.ns {
+					return "C06/gateway-route-tiebreak"
+				}
+			}
+		}
+	}
 	// tcp-services ConfigMap: two keys that are one port number
 	for _, o := range all {
 		if cm, ok := o.(*api.ConfigMap); ok && cm.Name == "tcp-services" {
@@ -462,6 +483,9 @@ func describe(c ocase) string {
 		if ing, ok := o.(*networking.Ingress); ok {
 			s += fmt.Sprintf(" stamp=%d hosts=%v", ing.CreationTimestamp.Unix(), hostsOf(ing))
 		}
+		if rt, ok := o.(*gatewayv1alpha2.TCPRoute); ok {
+			s += fmt.Sprintf(" stamp=%d parents=%d", rt.CreationTimestamp.Unix(), len(rt.Spec.ParentRefs))
+		}
 		if rt, ok := o.(*gatewayv1.HTTPRoute); ok {
 			s += fmt.Sprintf(" stamp=%d hostnames=%v rules=%d", rt.CreationTimestamp.Unix(), rt.Spec.Hostnames, len(rt.Spec.Rules))
 		}
@@ -491,7 +515,11 @@ func genCase(rng *rand.Rand, i int, withBatch bool) ocase {
 		c.opts.WatchWithoutClass = false
 	}
 	objs := c06.GenCluster(rng, cfg, level)
-	if i%6 == 5 || *gwOnly {
+	if i%6 == 3 || *gwOnly {
+		// routes of one second with adversarial identities claiming the same things
+		c.opts.GatewayV1, c.opts.TCPRouteA2 = true, true
+		objs = append(objs, c06.GenGatewaysAdversarial(rng, 1+rng.Intn(3))...)
+	} else if i%6 == 5 {
 		// gateway api next to (or instead of most of) the ingresses
 		c.opts.GatewayV1 = true
 		objs = append(objs, c06.GenGateways(rng)...)
@@ -500,7 +528,17 @@ func genCase(rng *rand.Rand, i int, withBatch bool) ocase {
 		// ingresses created in the same second whose namespace / name stress the tie-break
 		objs = append(objs, c06.GenAdversarial(rng, 2+rng.Intn(4))...)
 	}
-	c.objs = c06.Stamp(objs)
+	// the generators may name the same object twice (services of the adversarial
+	// namespaces): one object per key, the first one
+	seenKeys := map[string]bool{}
+	uniq := objs[:0:0]
+	for _, ob := range objs {
+		if k := world.Key(ob); !seenKeys[k] {
+			seenKeys[k] = true
+			uniq = append(uniq, ob)
+		}
+	}
+	c.objs = c06.Stamp(uniq)
 	if withBatch {
 		if level > 0 {
 			cfg.HostPool, cfg.PathPool = c06.Hosts, c06.Paths
@@ -540,8 +578,8 @@ func main() {
 			cases = append(cases, decode(in))
 			isCorpus = append(isCorpus, true)
 		}
-		nCluster := o.Count(30, 800)
-		nBatch := o.Count(15, 400)
+		nCluster := o.Count(26, 800)
+		nBatch := o.Count(12, 400)
 		if o.Search {
 			nCluster, nBatch = o.Count(400, 1500), o.Count(150, 700)
 		}
